@@ -162,8 +162,11 @@ def route_rzx():
         if isinstance(n, ast.Assign) and len(n.targets) == 1 and isinstance(n.targets[0], ast.Name):
             assigns.setdefault(n.targets[0].id, []).append(n.value)
     sw = assigns.get("swap_gates", [])
-    if len(sw) != 1 or not isinstance(sw[0], ast.List) or [getattr(e, "value", None) for e in sw[0].elts] != SWAP_GATES:
-        raise TranslatorError("to_chain_structure: swap_gates is not the list of the six exchange-type gates")
+    names = [getattr(e, "value", None) for e in sw[0].elts] if len(sw) == 1 and isinstance(sw[0], ast.List) else None
+    # with fixes/C07-6.patch the list also has the name an instance of the class SWAPALPHA carries
+    if names not in (SWAP_GATES, SWAP_GATES + ["SWAPALPHA"]):
+        raise TranslatorError("to_chain_structure: swap_gates is not the list of the six exchange-type gates "
+                              "(optionally followed by the class name SWAPALPHA)")
     mentions = any(isinstance(n, ast.Name) and n.id in ("ordered_gates", "ordered", "flip_fwd", "flip_bwd")
                    for n in ast.walk(fn))
     ifexps = [n for n in ast.walk(fn) if isinstance(n, ast.IfExp)]
@@ -190,6 +193,29 @@ def route_rzx():
     if sorted(flips) != ["flip_bwd", "flip_bwd", "flip_fwd", "flip_fwd"]:
         raise TranslatorError("to_chain_structure: expected two forward and two backward ordered target lists")
     return True
+
+
+def route_class_name():
+    """Do to_chain_structure and adjacent_gates also route a gate NAMED "SWAPALPHA" - the name an instance of the
+    exported class SWAPALPHA carries (fixes/C07-6.patch)?  Both lists alike, else not a modelled shape."""
+    found = []
+    for rel, fname in (("transpiler/chain.py", "to_chain_structure"), ("circuit/circuit.py", "adjacent_gates")):
+        tree = _src(rel)
+        fns = [n for n in ast.walk(tree) if isinstance(n, ast.FunctionDef) and n.name == fname]
+        if len(fns) != 1:
+            raise TranslatorError(f"{rel}: {fname} not found")
+        lists = [n.value for n in ast.walk(fns[0]) if isinstance(n, ast.Assign) and len(n.targets) == 1
+                 and isinstance(n.targets[0], ast.Name) and n.targets[0].id == "swap_gates"]
+        names = [getattr(e, "value", None) for e in lists[0].elts] if len(lists) == 1 and isinstance(lists[0], ast.List) else None
+        if names == SWAP_GATES:
+            found.append(False)
+        elif names == SWAP_GATES + ["SWAPALPHA"]:
+            found.append(True)
+        else:
+            raise TranslatorError(f"{rel}: swap_gates of {fname} not recognised")
+    if found[0] != found[1]:
+        raise TranslatorError("to_chain_structure and adjacent_gates list different exchange-type gates")
+    return found[0]
 
 
 def _chain_call(st, dev):
